@@ -1080,6 +1080,11 @@ func writeEvidence(rc *runCtx, m *WorkerOut, workers int, deadline float64, nvio
 	}
 	b, _ := json.MarshalIndent(ev, "", " ")
 	path := filepath.Join(verifDir, "evidence", rc.cfg.ID+".json")
+	if os.Getenv("VERIF_REPO") != "" {
+		// a tree other than /repo was checked (development aid): that is not evidence about /repo
+		_ = os.MkdirAll(filepath.Join(verifDir, "work", "evidence-other-tree"), 0o755)
+		path = filepath.Join(verifDir, "work", "evidence-other-tree", rc.cfg.ID+".json")
+	}
 	if err := os.WriteFile(path, b, 0o644); err != nil {
 		die2("writing evidence: %v", err)
 	}
